@@ -1306,3 +1306,20 @@ Lemma start_drained c fuel s : enabled s = false -> queue s = [] ->
 Proof.
   intros He Hq. unfold start. rewrite He. destruct fuel; simpl; rewrite Hq; reflexivity.
 Qed.
+
+(* ---- histories used as witnesses in Props/C28.v, Props/C29.v ---------- *)
+
+(* three actions at one instant + one scheduled from inside + one cancelled *)
+Definition ex_h : list tcmd :=
+  [ TDo (SSched (Abs 5) 0 [SSched Now 3 []; SCancel 2]);
+    TDo (SSched (Abs 5) 1 []);
+    TDo (SSched (Rel 5) 2 []);
+    TDo (SSched (Abs 2) 4 [SSleep 1]);
+    TStart ].
+
+Fixpoint same_instant (n : nat) : list tcmd :=
+  match n with O => [] | S k => same_instant k ++ [TDo (SSched Now (Z.of_nat k) [])] end.
+
+Definition count_runs (l : list oev) : nat :=
+  length (filter (fun o => match o with ORun _ _ => true | _ => false end) l).
+
